@@ -318,7 +318,7 @@ func zzAll(k []byte) bool { return true }
 //
 //zz:opt loop=12
 //zz:quick N=2 K=2 VLO=1
-//zz:thorough N=2 K=3
+//zz:thorough N=1 K=3
 func zzH_C12_get_has(t *zzT) {
 	sc := zzBuild(t, 2)
 	sc.zzOps(t, 0, t.Param("K", 2))
@@ -345,7 +345,7 @@ func zzH_C12_get_has(t *zzT) {
 //
 //zz:opt loop=16
 //zz:quick N=2 K=1 VLO=1
-//zz:thorough N=3 K=2 VLO=1
+//zz:thorough N=2 K=2 VLO=1
 func zzH_C12_range(t *zzT) {
 	sc := zzBuild(t, 2)
 	sc.zzOps(t, 0, t.Param("K", 1))
@@ -412,7 +412,7 @@ func zzH_C12_iterate_whole_view(t *zzT) {
 //
 //zz:opt loop=16
 //zz:quick N=2 K=1 VLO=1
-//zz:thorough N=3 K=2 VLO=1
+//zz:thorough N=2 K=2 VLO=1
 func zzH_C12_iterate(t *zzT) {
 	sc := zzBuild(t, 2)
 	sc.zzOps(t, 0, t.Param("K", 1))
